@@ -49,39 +49,63 @@ Section Composed.
 
   Lemma searches_defined_composed c :
     (forall b e cs, snell_inv b e cs <> None) ->
-    no_total_internal_reflection c -> angle_search_defined c -> period_search_defined_at c ->
+    (cfg_checks_total_reflection = false -> no_total_internal_reflection c) -> angle_search_defined c ->
+    (searches_cannot_fail = false -> period_search_defined_at c) ->
     searches_defined_at R_ops KM c.
   Proof.
     intros H Htir Hang Hper. split; [exact H |]. intros signal Hs. split.
-    - intros Hau Hoff. specialize (Htir signal Hs Hau Hoff). specialize (Hang signal Hs Hau Hoff).
-      cbn [o_snell_ext o_nm_theta oracles_of_model]. rewrite Htir. split; [discriminate |].
-      intros e He. inversion He. subst e. rewrite Hang. discriminate.
-    - intros a Ha. specialize (Hper signal a Hs Ha). cbn [o_nm_period oracles_of_model]. rewrite Hper. discriminate.
+    - intros Hau Hoff. specialize (Hang signal Hs Hau Hoff).
+      cbn [o_snell_ext o_nm_theta oracles_of_model]. split.
+      + intros Hf. rewrite (Htir Hf signal Hs Hau Hoff). discriminate.
+      + intros e He. destruct (snell_ext_defined index_of signal (cfg_cs0 R_ops c)); [| discriminate].
+        inversion He. subst e. rewrite Hang. discriminate.
+    - intros a Ha Hf. specialize (Hper Hf signal a Hs Ha). cbn [o_nm_period oracles_of_model]. rewrite Hper. discriminate.
   Qed.
 
-  (* C17: never panics -- for a configuration that is not beyond total internal reflection and whose searches meet no
-     undefined cost; plus totality of the Snell inverse (C13) *)
+  (* C17: never panics -- for a configuration whose searches meet no undefined cost; plus totality of the Snell inverse (C13).
+     The hypotheses that the repairs of F7b / F7h make unnecessary are guarded by the source-derived flags: once try_as_spdc checks
+     the external angle (cfg_checks_total_reflection) the first is void, once the solver cannot fail (searches_cannot_fail) the
+     third is *)
   Theorem no_panic_composed U minpos c :
     (forall b e cs, snell_inv b e cs <> None) ->
-    no_total_internal_reflection c -> angle_search_defined c -> period_search_defined_at c ->
+    (cfg_checks_total_reflection = false -> no_total_internal_reflection c) -> angle_search_defined c ->
+    (searches_cannot_fail = false -> period_search_defined_at c) ->
     is_panic (try_as_spdc_now R_ops U KM minpos c) = false.
   Proof.
     intros H Htir Hang Hper. apply now_no_panic_at; [exact scale_order_R | apply searches_defined_composed; assumption].
   Qed.
 
-  (* ... and the hypothesis cannot be dropped: a signal beyond total internal reflection with an automatic crystal angle
-     PANICS in the composed model, as in the implementation (finding F7b; concrete witness in Findings/C17_F7b_composed.v) *)
+  (* ... and the first hypothesis cannot be dropped while the code does not check: a signal beyond total internal reflection with
+     an automatic crystal angle PANICS in the composed model, as in the implementation (finding F7b; concrete witness in
+     Findings/C17_F7b_composed.v); with the check it is the error the property asks for *)
+  Theorem tir_outcome_composed U minpos c signal :
+    cfg_le R_ops c = false -> signal_step R_ops KM c = Ok signal ->
+    is_auto (cc_theta_deg (c_crystal c)) = true -> c_pp c = PCOff ->
+    snell_ext_defined index_of signal (cfg_cs0 R_ops c) = false ->
+    try_as_spdc_now R_ops U KM minpos c =
+      if cfg_checks_total_reflection then Err ETotalReflection else Panic SiteNelderMeadUnwrap.
+  Proof.
+    intros Hle Hs Hau Hoff Hd. rewrite (now_steps R R_ops U KM minpos c Hle). unfold try_as_spdc_steps.
+    fold (signal_step R_ops KM c). rewrite Hs. cbn [bind]. unfold poling_step, poling_of_cfg. rewrite Hoff. cbn [bind fst snd].
+    unfold theta_step. rewrite Hau. cbn [is_pol_off]. unfold optimum_theta, ext_defined. cbn [o_snell_ext oracles_of_model]. rewrite Hd.
+    cbn [negb]. rewrite andb_true_r. destruct cfg_checks_total_reflection; reflexivity.
+  Qed.
+
   Theorem tir_panics_composed U minpos c signal :
+    cfg_checks_total_reflection = false ->
     cfg_le R_ops c = false -> signal_step R_ops KM c = Ok signal ->
     is_auto (cc_theta_deg (c_crystal c)) = true -> c_pp c = PCOff ->
     snell_ext_defined index_of signal (cfg_cs0 R_ops c) = false ->
     try_as_spdc_now R_ops U KM minpos c = Panic SiteNelderMeadUnwrap.
-  Proof.
-    intros Hle Hs Hau Hoff Hd. rewrite (now_steps R R_ops U KM minpos c Hle). unfold try_as_spdc_steps.
-    fold (signal_step R_ops KM c). rewrite Hs. cbn [bind]. unfold poling_step, poling_of_cfg. rewrite Hoff. cbn [bind fst snd].
-    unfold theta_step. rewrite Hau. cbn [is_pol_off]. unfold optimum_theta. cbn [o_snell_ext oracles_of_model]. rewrite Hd.
-    reflexivity.
-  Qed.
+  Proof. intros Hf Hle Hs Hau Hoff Hd. rewrite (tir_outcome_composed U minpos c signal Hle Hs Hau Hoff Hd), Hf. reflexivity. Qed.
+
+  Theorem tir_is_error_composed U minpos c signal :
+    cfg_checks_total_reflection = true ->
+    cfg_le R_ops c = false -> signal_step R_ops KM c = Ok signal ->
+    is_auto (cc_theta_deg (c_crystal c)) = true -> c_pp c = PCOff ->
+    snell_ext_defined index_of signal (cfg_cs0 R_ops c) = false ->
+    try_as_spdc_now R_ops U KM minpos c = Err ETotalReflection.
+  Proof. intros Hf Hle Hs Hau Hoff Hd. rewrite (tir_outcome_composed U minpos c signal Hle Hs Hau Hoff Hd), Hf. reflexivity. Qed.
 
   (* the index along z is never 0 (a property of the index function; true of every physical crystal), and the emission angle of
      THIS configuration's optimum idler is defined *)
@@ -102,7 +126,8 @@ Section Composed.
 
   Theorem ok_finite_or_err_composed U minpos c :
     (forall b e cs, snell_inv b e cs <> None) ->
-    no_total_internal_reflection c -> angle_search_defined c -> period_search_defined_at c ->
+    (cfg_checks_total_reflection = false -> no_total_internal_reflection c) -> angle_search_defined c ->
+    (searches_cannot_fail = false -> period_search_defined_at c) ->
     (forall cs l pol, index_of cs l ez pol <> 0) -> idler_defined_at minpos c ->
     (forall signal, signal_step R_ops KM c = Ok signal ->
        dkz_c index_of signal (cfg_pump R_ops c) (cfg_cs0 R_ops c) MI.PPOff <> 0) ->
@@ -171,11 +196,17 @@ Section Composed.
     cbn [o_dkz0 o_nm_period oracles_of_model neqb nltb R_ops]. rewrite n0_R, Hdef.
     unfold GA.opp_perfect, MA.z0.
     destruct (Req_EM_T (dkz_c index_of s p cs MI.PPOff) 0) as [Hz | Hz]; [reflexivity |].
-    unfold GA.opp_reject, GA.opp_max_period.
     set (per := MA.nm_period (dkz_c index_of s p cs) MA.real_ops sd_period (cs_length cs)).
-    replace (cs_length cs / 1) with (cs_length cs) by field.
-    destruct (Rlt_dec (cs_length cs) per), (Rlt_dec per GA.opp_min_period); cbn [orb]; try reflexivity.
-    destruct (bool_dec false true); [discriminate |].
+    (* the generated acceptance test through its specification (C04_poling.reject_iff), whatever its syntactic form *)
+    rewrite C04_poling.max_period_eq.
+    pose proof (C04_poling.reject_iff GA.opp_min_period (cs_length cs) per) as Hrej.
+    destruct (GA.opp_reject GA.opp_min_period (cs_length cs) per) eqn:Er.
+    { destruct (proj1 Hrej eq_refl) as [Hgt | Hlt].
+      - destruct (Rlt_dec (cs_length cs) per); [reflexivity | contradiction].
+      - destruct (Rlt_dec (cs_length cs) per); [reflexivity |]. destruct (Rlt_dec per GA.opp_min_period); [reflexivity | contradiction]. }
+    assert (Hn : ~ (cs_length cs < per \/ per < GA.opp_min_period)) by (intros Hc; apply Hrej in Hc; discriminate Hc).
+    destruct (Rlt_dec (cs_length cs) per); [exfalso; apply Hn; left; assumption |].
+    destruct (Rlt_dec per GA.opp_min_period); [exfalso; apply Hn; right; assumption |]. cbn [orb].
     f_equal. f_equal. unfold GA.opp_value, GI.sign_mul, GI.sign_from, sign_mul, sign_of. cbn [nltb nneg R_ops]. rewrite n0_R.
     destruct (Rlt_dec (dkz_c index_of s p cs MI.PPOff) 0); ring.
   Qed.
